@@ -1,8 +1,14 @@
 package main
 
 import (
+	"bytes"
 	"regexp"
+	"strconv"
 	"strings"
+
+	"github.com/robfig/soy/soyhtml"
+	"github.com/robfig/soy/soymsg"
+	"github.com/robfig/soy/template"
 )
 
 var cssExprRe = regexp.MustCompile(`\{css [^}]*,[^}]*\}`)
@@ -97,7 +103,96 @@ func directC03(g *G, rep *Report) {
 // template attributes (namespace default, template override; unspecified = on), never inherited from the
 // caller.  Exhaustive over namespace attr x template attr for a chain of three templates in three files,
 // for the three ways of passing data; the expected output is computed here.
+// directC03Msg: prints inside a {msg} are placeholders; with a translation bundle the renderer finds the print to
+// execute BY PLACEHOLDER NAME.  The same expression printed with and without a cancelling directive must stay two
+// different placeholders: each is escaped iff its own directives say so, without a bundle, under the identity
+// translation and under a translation that reverses the order of the parts.
+func directC03Msg(g *G, rep *Report) {
+	esc := "T&lt;&amp;&quot;&#39;&gt;T"
+	type pr struct {
+		src string
+		raw bool
+	}
+	prints := []pr{{"{$p|noAutoescape}", true}, {"{$p}", false}, {"{$p|id}", true}, {"{$p|escapeHtml}", false}, {"{$m.p}", false}, {"{$m.p|noAutoescape}", true}, {"{$p|truncate:50}", false}, {"{$p|truncate:50|noAutoescape}", true}}
+	r := g.R.Fork()
+	n := g.N(120, 2000)
+	for i := 0; i < n; i++ {
+		k := 2 + r.Intn(4)
+		var body strings.Builder
+		var pieces []string // expected text of each part, in source order
+		for j := 0; j < k; j++ {
+			lit := string(rune('A' + j))
+			body.WriteString(lit)
+			pieces = append(pieces, lit)
+			p := prints[r.Intn(len(prints))]
+			if j == 1 && i%2 == 0 {
+				p = prints[(i/2)%2] // the pair {$p|noAutoescape} / {$p} in both orders
+			}
+			if j == 2 && i%2 == 0 {
+				p = prints[1-(i/2)%2]
+			}
+			body.WriteString(p.src)
+			if p.raw {
+				pieces = append(pieces, taint)
+			} else {
+				pieces = append(pieces, esc)
+			}
+		}
+		src := "{namespace mm}\n/**\n * @param p\n * @param m\n */\n{template .t}\n{msg desc=\"d\"}" + body.String() + "{/msg}{if false}{$p}{$m}{/if}\n{/template}\n"
+		reg, err := compileBundle([]srcFile{{"mm.soy", src}})
+		if err != nil {
+			rep.Distribution["msg-placeholders:compile-error"]++
+			continue
+		}
+		d := toData(map[string]interface{}{"p": taint, "m": map[string]interface{}{"p": taint}})
+		for kind := -1; kind <= 1; kind++ {
+			want := strings.Join(pieces, "")
+			if kind == 1 {
+				rev := make([]string, len(pieces))
+				for a := range pieces {
+					rev[len(pieces)-1-a] = pieces[a]
+				}
+				want = strings.Join(rev, "")
+			}
+			var buf bytes.Buffer
+			var rerr error
+			cls := safely(func() error {
+				rd := soyhtml.NewTofu(reg).NewRenderer("mm.t")
+				if kind >= 0 {
+					rd = rd.WithMessages(translationsAllKind(reg, kind))
+				}
+				rerr = rd.Execute(&buf, d)
+				return rerr
+			})
+			rep.Evaluations++
+			rep.Distribution["msg-placeholders:"+cls]++
+			if cls != "OK" || buf.String() != want {
+				if len(rep.Violations) < 30 {
+					rep.Violations = append(rep.Violations, Viol{Key: "msg-placeholder-escaping:kind" + strconv.Itoa(kind), What: "a print inside a {msg} is not escaped according to its own directives (bundle kind " + strconv.Itoa(kind) + ": -1 none, 0 identity, 1 reversed)",
+						Req: req("render", encSources([]srcFile{{"mm.soy", src}}), hxs("mm.t")), Note: body.String(), Impl: cls + " " + buf.String(), Want: want})
+				}
+			} else {
+				rep.DistinctNT++
+			}
+		}
+	}
+}
+
+// translationsAllKind: every message translated — kind 0 by itself, kind 1 with its parts in reverse order.
+func translationsAllKind(reg *template.Registry, kind int) *jsMemBundle {
+	b := &jsMemBundle{msgs: map[uint64]*soymsg.Message{}}
+	for _, m := range allMsgNodes(reg) {
+		parts := identityParts(m.Body.Children())
+		if kind == 1 {
+			parts = reverseParts(parts)
+		}
+		b.msgs[m.ID] = &soymsg.Message{ID: m.ID, Parts: parts}
+	}
+	return b
+}
+
 func directC03Modes(g *G, rep *Report) {
+	directC03Msg(g, rep)
 	nsAttrs := []string{"", "true", "false", "contextual"}
 	tAttrs := []string{"", "true", "false"}
 	attr := func(a string) string {
